@@ -26,8 +26,22 @@ def extract(read):
         k = before.rfind(".lock().unwrap();")
         return k >= 0 and "}" not in before[k:]
     seq_under_lock = bool(helper) and fetches == 1 and len(calls) >= 3 and all(locked_before(c) for c in calls)
+    # the forwarder reads the `terminated` latch after it locked the transport and before it takes a number;
+    # the session stores `true` into it before it sends `terminated`
+    fw = re.search(r"fn spawn_output_forwarder\(.*?\n    \}\n", src, re.S)
+    fwt = fw.group(0) if fw else ""
+    i_lock, i_latch, i_seq = fwt.find("io.lock().unwrap()"), fwt.find("if !terminated.load("), fwt.find("Self::next_seq(")
+    dr = re.search(r"fn drain_events\(.*?\n    \}\n", src, re.S)
+    drt = dr.group(0) if dr else ""
+    stores = [m.start() for m in re.finditer(r"self\.terminated\.store\(true", drt)]
+    sends = [m.start() for m in re.finditer(r'self\.send_event\("terminated"\)', drt)]
+    latch_under_lock = (0 <= i_lock < i_latch < i_seq and len(stores) == 2 and len(sends) == 2
+                        and all(a < b for a, b in zip(stores, sends)))
     q = lambda xs: "[" + ", ".join('"%s"' % x for x in xs) + "]"
     return (f"def commands : List String := {q(cmds)}\n\n"
             f"def endsSession : List String := {q(ends)}\n\n"
             f"/-- every sequence number is taken by `next_seq`, with the transport locked by the caller -/\n"
-            f"def seqUnderLock : Bool := {'true' if seq_under_lock else 'false'}\n")
+            f"def seqUnderLock : Bool := {'true' if seq_under_lock else 'false'}\n\n"
+            f"/-- a forwarder reads the `terminated` latch under the transport lock, before it takes a number; the session\n"
+            f"sets the latch before it sends `terminated` -/\n"
+            f"def latchUnderLock : Bool := {'true' if latch_under_lock else 'false'}\n")
